@@ -42,6 +42,11 @@ import (
 type wspec struct {
 	Chunks []string `json:"chunks"` // quoted
 	Closes bool     `json:"closes"` // the writer closes its end after the last write
+	// TailRead: the writer stays open and its last write holds both its last
+	// newline and its unterminated tail, so once that last terminated line has
+	// been delivered the tail has been read too and must be flushed when the
+	// stream is cancelled.
+	TailRead bool `json:"tail_read,omitempty"`
 }
 
 type tline struct {
@@ -279,11 +284,132 @@ func execute(dir string, n int, c *scase, delays [][]time.Duration, cancelAfter 
 	return problems
 }
 
+// ---- volume: several hundred KiB through one datagram stream ----
+
+type vitem struct {
+	Start int    `json:"start,omitempty"`
+	Count int    `json:"count,omitempty"` // > 0: a run of consecutive canonical lines
+	Raw   string `json:"raw,omitempty"`   // otherwise one line, quoted
+}
+
+type vcase struct {
+	Kind  string  `json:"kind"`
+	ND    int     `json:"nd"`   // datagrams
+	LPD   int     `json:"lpd"`  // lines per datagram
+	Fill  int     `json:"fill"` // filler bytes per line
+	Got   []vitem `json:"got"`
+	Lines int     `json:"lines_received"`
+	Ended bool    `json:"ended"`
+}
+
+func canon(fill, k int) string { return fmt.Sprintf("A%06d:%s", k, strings.Repeat("x", fill)) }
+
+// executeVolume sends v.ND datagrams of v.LPD canonical lines each from one
+// sender, never running more than one datagram ahead of what was delivered.
+func executeVolume(dir string, n int, v *vcase) (first string) {
+	ctx, cancel := context.WithCancel(context.Background())
+	defer cancel()
+	var wg sync.WaitGroup
+	var addr string
+	if v.Kind == "unixgram" {
+		addr = filepath.Join(dir, fmt.Sprintf("v%d", n))
+	} else {
+		addr = fmt.Sprintf("127.0.0.1:%d", freePort("udp"))
+	}
+	ss, err := logstream.New(ctx, &wg, waker.NewTestAlways(), v.Kind+"://"+addr, logstream.OneShotDisabled)
+	must(err)
+	var mu sync.Mutex
+	var got []string
+	done := make(chan struct{})
+	go func() {
+		for l := range ss.Lines() {
+			mu.Lock()
+			got = append(got, l.Line)
+			mu.Unlock()
+		}
+		close(done)
+	}()
+	count := func() int { mu.Lock(); defer mu.Unlock(); return len(got) }
+	wait := func(n int, d time.Duration) {
+		deadline := time.Now().Add(d)
+		for count() < n && time.Now().Before(deadline) {
+			time.Sleep(50 * time.Microsecond)
+		}
+	}
+	conn, err := net.Dial(v.Kind, addr)
+	must(err)
+	for j := 0; j < v.ND; j++ {
+		var b strings.Builder
+		for k := j * v.LPD; k < (j+1)*v.LPD; k++ {
+			b.WriteString(canon(v.Fill, k))
+			b.WriteByte('\n')
+		}
+		_, err := conn.Write([]byte(b.String()))
+		must(err)
+		wait((j+1)*v.LPD, 400*time.Millisecond)
+	}
+	wait(v.ND*v.LPD, 2*time.Second)
+	cancel()
+	select {
+	case <-done:
+		v.Ended = true
+	case <-time.After(waitTimeout):
+	}
+	_ = conn.Close()
+	if v.Kind == "unixgram" {
+		_ = os.Remove(addr)
+	}
+	mu.Lock()
+	defer mu.Unlock()
+	v.Lines = len(got)
+	next := 0
+	for _, l := range got {
+		if l == canon(v.Fill, next) {
+			if m := len(v.Got); m > 0 && v.Got[m-1].Count > 0 && v.Got[m-1].Start+v.Got[m-1].Count == next {
+				v.Got[m-1].Count++
+			} else {
+				v.Got = append(v.Got, vitem{Start: next, Count: 1})
+			}
+			next++
+			continue
+		}
+		if first == "" {
+			first = fmt.Sprintf("line %d on the channel is %.80q, the sender's next line is %.80q", len(v.Got), l, canon(v.Fill, next))
+		}
+		v.Got = append(v.Got, vitem{Raw: vlib.Q(l)})
+		// resynchronise on the line's number if it has one
+		var k int
+		if _, err := fmt.Sscanf(l, "A%06d:", &k); err == nil && l == canon(v.Fill, k) {
+			v.Got[len(v.Got)-1] = vitem{Start: k, Count: 1}
+			next = k + 1
+		}
+	}
+	if first == "" && next != v.ND*v.LPD {
+		first = fmt.Sprintf("%d of %d lines arrived", next, v.ND*v.LPD)
+	}
+	return first
+}
+
+func coqVolume(id uint64, v *vcase) string {
+	items := make([]string, len(v.Got))
+	for i, it := range v.Got {
+		if it.Count > 0 {
+			items[i] = vlib.App("VRun", vlib.Nat(it.Start), vlib.Nat(it.Count))
+		} else {
+			items[i] = vlib.App("VRaw", tlib.H(vlib.UnQ(it.Raw)))
+		}
+	}
+	return vlib.App("CVOL", vlib.N(id), vlib.N(kindN[v.Kind]), vlib.Nat(v.ND), vlib.Nat(v.LPD), vlib.Nat(v.Fill), vlib.List(items), vlib.Bool(v.Ended))
+}
+
 func isDgram(kind string) bool { return kind == "unixgram" || kind == "udp" }
 
 // closedFor says whether writer i's connection must have been delivered completely.
 func closedFor(c *scase, i int) bool {
-	return c.Writers[i].Closes && !c.CancelEarly && !isDgram(c.Kind)
+	if c.CancelEarly {
+		return false
+	}
+	return c.Writers[i].TailRead || (c.Writers[i].Closes && !isDgram(c.Kind))
 }
 
 func judge(c *scase, problems []string) (class, what string) {
@@ -314,6 +440,9 @@ func judge(c *scase, problems []string) (class, what string) {
 		}
 		if closedFor(c, i) {
 			if want := frame(all); !same(want, mine) {
+				if w.TailRead && len(want) > 0 && same(want[:len(want)-1], mine) {
+					return "read-tail-dropped-on-cancel", fmt.Sprintf("writer %d wrote %q (its last write holds its last newline and its tail) and stayed open; after cancellation its lines on the channel are %q, the property requires %q", i, all, mine, want)
+				}
 				return "conn-lines-differ", fmt.Sprintf("writer %d wrote %q and closed; its lines on the channel are %q, the property requires %q", i, all, mine, want)
 			}
 			continue
@@ -470,6 +599,30 @@ func main() {
 		kinds = []string{"unix", "tcp"}
 		perKind = 4000
 	}
+	if !race {
+		// the read buffer is 131072 bytes: datagrams of ~60 KB, 360 KB in all,
+		// so that any policy that offers a datagram read less room than a
+		// datagram may need shows (the kernel cuts what does not fit)
+		for _, kind := range []string{"unixgram", "udp"} {
+			nv := 1
+			if a.Thorough() {
+				nv = 4
+			}
+			for r := 0; r < nv; r++ {
+				v := &vcase{Kind: kind, ND: 6 + 3*r, LPD: 1000 - 130*r, Fill: 51 + 7*r}
+				vlib.WriteJSON(inflight, &scase{Kind: kind})
+				first := executeVolume(dir, n, v)
+				n++
+				if first != "" {
+					out.Violate("dgram-volume-lines-differ/"+kind, fmt.Sprintf("%d datagrams of %d lines (%d bytes each) from one sender: %s", v.ND, v.LPD, v.LPD*(v.Fill+9), first), v)
+				} else if !v.Ended {
+					out.Violate("stream-does-not-end/"+kind, "volume case: the channel did not close after cancellation", v)
+				}
+				out.Add(coqVolume(out.NextID(), v), v, true)
+				out.Count(kind + "/volume")
+			}
+		}
+	}
 	for round := 0; round < perKind; round++ {
 		for _, kind := range kinds {
 			c := &scase{Kind: kind}
@@ -484,6 +637,9 @@ func main() {
 			delays := make([][]time.Duration, nw)
 			for i := 0; i < nw; i++ {
 				closes := rng.Chance(70)
+				if kind == "fifo" || kind == "stdin" {
+					closes = rng.Chance(50)
+				}
 				tail := rng.Chance(50)
 				whole := false
 				if isDgram(kind) {
@@ -495,7 +651,15 @@ func main() {
 					closes = false
 				}
 				w := wspec{Closes: closes}
-				w.Chunks = vlib.Qs(genWriter(rng, i, whole, tail))
+				chunks := genWriter(rng, i, whole, tail)
+				if !closes && tail && rng.Chance(70) {
+					for len(chunks) > 1 && !strings.Contains(chunks[len(chunks)-1], "\n") {
+						chunks[len(chunks)-2] += chunks[len(chunks)-1]
+						chunks = chunks[:len(chunks)-1]
+					}
+					w.TailRead = strings.Contains(chunks[len(chunks)-1], "\n")
+				}
+				w.Chunks = vlib.Qs(chunks)
 				c.Writers = append(c.Writers, w)
 				delays[i] = make([]time.Duration, len(w.Chunks))
 				for j := range delays[i] {
